@@ -471,6 +471,8 @@ class SymNum:
             return type(o)('nan')
         if isinstance(o, (list, tuple, str)):
             return NotImplemented
+        if isinstance(o, (int, float, _np.number)) and not isinstance(o, (bool, _np.bool_)) and o == 0:
+            return o * 0.0 if isinstance(o, (float, _np.floating)) else o      # finite * 0 is a concrete zero
         return self._mk(_lin_mul(self.e, _z(o)), o, mul=True)
     __rmul__ = __mul__
 
@@ -893,6 +895,8 @@ class LogNum(SymNum):
         return SymBool({'lt': l < lo, 'le': l <= lo, 'gt': l > lo, 'ge': l >= lo, 'eq': l == lo, 'ne': l != lo}[op])
 
     def __mul__(self, o):
+        if isinstance(o, LogNum):
+            return LogNum(self.l + o.l, None)
         if isinstance(o, (int, float, _np.number)) and not isinstance(o, (bool, _np.bool_)) and float(o) > 0:
             return LogNum(self.l + z3.RealVal(fractions.Fraction(math.log2(float(o)))), None)
         return SymNum.__mul__(self, o)
@@ -910,6 +914,36 @@ class LogNum(SymNum):
 
     def __pos__(self):
         return self
+
+
+class NegLogNum(SymNum):
+    """-f for a log-domain positive number f (a negated melody frequency)"""
+    __slots__ = ("pos",)
+
+    def __init__(self, pos):
+        self.pos = pos
+        self.grid = None
+        self.py = False
+
+    @property
+    def e(self):
+        return -self.pos.e
+
+    def __neg__(self):
+        return self.pos
+
+    def __abs__(self):
+        return self.pos
+
+    def _cmp(self, o, op):
+        if isinstance(o, (int, float, _np.number)) and not isinstance(o, (bool, _np.bool_)) and math.isfinite(o):
+            if float(o) >= 0:
+                return {'lt': True, 'le': True, 'gt': False, 'ge': False, 'eq': False, 'ne': True}[op]
+            return self.pos._cmp(-float(o), _SWAP[op])
+        return SymNum._cmp(self, o, op)
+
+
+LogNum.__neg__ = lambda self: NegLogNum(self)
 
 
 def sym_log2(x):
